@@ -187,7 +187,7 @@ def run_cli(argv, stdin_text="", entry="argv"):
     'sys.argv' is how the installed console script and `python -m` enter:
     sys.argv is set and main() is called without arguments.  Returns
     (status, stdout, stderr) where status is 'ok', 'exit0', 'exit:<code>',
-    'exitmsg:<message>' or 'raise:<type>:<message>'."""
+    'exitmsg:<message>' or 'raise:<type>:<message> @<file>:<function>'."""
     from metomi.isodatetime.main import main
     saved_argv = sys.argv
     with Stdio(stdin_text) as io_:
@@ -210,7 +210,15 @@ def run_cli(argv, stdin_text="", entry="argv"):
             if type(exc).__name__ == "Hang":
                 sys.argv = saved_argv
                 raise
-            status = "raise:%s:%s" % (type(exc).__name__, exc)
+            # ... and where it came from (innermost frame), so that a known
+            # finding can be identified by its call site
+            tb = exc.__traceback__
+            while tb is not None and tb.tb_next is not None:
+                tb = tb.tb_next
+            where = "?" if tb is None else "%s:%s" % (
+                os.path.basename(tb.tb_frame.f_code.co_filename),
+                tb.tb_frame.f_code.co_name)
+            status = "raise:%s:%s @%s" % (type(exc).__name__, exc, where)
         finally:
             sys.argv = saved_argv
     return status, io_.out.getvalue(), io_.err.getvalue()
